@@ -49,6 +49,7 @@ InitW(cap) ==
     room    |-> 0,         \* lower bound on the free slots of the kernel queue since then (from observed FIONREAD)
     readded |-> {},
     lastWL  |-> {}, wlValid |-> FALSE,    \* the last WatchList taken at quiescence since the last receive (unbuffered Watchers)
+    wlSeq   |-> 0,         \* ... and how many kernel records had been queued when it was taken
     uoInos  |-> {},        \* watched inodes whose path was unlinked while something keeps them alive (no DELETE_SELF yet)
     recursive |-> FALSE,   \* a recursive watch was added (C19)        \* paths added again after their watch ended or was re-pointed
     cap     |-> cap,
@@ -217,8 +218,10 @@ MissingFrom(ws, x) == IF "manymoves" \in ws.flags \/ MovesBetween(ws, x) >= 10
 \* When the reader is parked sending the event of record s, it has handled every record up to s: a WatchList taken
 \* at such a quiescent moment (unbuffered channel) must no longer show a watch whose end record is s or earlier.
 \* The deduction is made when that event is finally received.
+\* (Only for a record that was already queued when the list was taken: otherwise the reader was idle then, not parked.)
 CheckLastWL(ws, seq) ==
   IF ~ws.wlValid THEN ws
+  ELSE IF seq > ws.wlSeq THEN [ws EXCEPT !.wlValid = FALSE]
   ELSE LET ended == {ws.uw[i].path : i \in {k \in DOMAIN ws.uw : ws.uw[k].st = "ending" /\ ws.uw[k].endSeq <= seq}}
            w1 == [ws EXCEPT !.wlValid = FALSE] IN
        IF ws.lastWL \cap ended # {} THEN Bad(w1, {"C04", "C09"}, "watchlist_listed_ended_watch") ELSE w1
